@@ -13,7 +13,7 @@ KINDS = {
             "DeleteFailed", "RestartFailed", "NodeDied", "ViewError"],
     "C20": ["MembersLostOnRestart", "RemovedStillListed", "MemberMissing", "AddressWrong", "JoinFailed", "RestartFailed", "NodeDied"],
 }
-SCENARIOS = ["basic", "wiring", "snapshot", "leave", "lagging", "lagging-leave", "joinfail", "lagging-replicas", "joincrash"]
+SCENARIOS = ["basic", "wiring", "snapshot", "leave", "lagging", "lagging-leave", "joinfail", "lagging-replicas", "joincrash", "rejoin"]
 
 
 def run_scenarios(ctx, repeat, scenarios=None):
@@ -34,7 +34,7 @@ def run_scenarios(ctx, repeat, scenarios=None):
         subprocess.run(["rm", "-rf", work])
         return sc, lines
     jobs = [(i, sc) for i, sc in enumerate((scenarios or SCENARIOS) * repeat)]
-    with ThreadPoolExecutor(max_workers=9) as ex:
+    with ThreadPoolExecutor(max_workers=6) as ex:
         res = list(ex.map(one, jobs))
     trace = ctx.path("cluster.ndjson")
     with open(trace, "w") as f:
@@ -59,7 +59,7 @@ def run_family(ctx):
         r = ctx.tlc("Membership", "Membership_mc.cfg", timeout=900)
         if r.violated:
             raise vlib.NoVerdict("Membership violates %s in the repaired switch positions" % r.violated)
-        for sw in ("SnapshotHasBook", "BootHasAddr"):
+        for sw in ("SnapshotHasBook", "BootHasAddr", "ForgetClientOnRemove"):
             rr = ctx.tlc("Membership", ctx.cfg("Membership_mc.cfg", {sw: "FALSE"}), timeout=600, name="Membership-" + sw, count=False)
             ctx.cov["binding_selftest"]["switch_%s_FALSE_gives_counterexample" % sw] = rr.violated
             if not rr.violated:
